@@ -245,14 +245,24 @@ fn main() {
                     let _ = sock.send_to(&b, info.repair_responder_address);
                     sent[3] += 1;
                 }
-                4 => { // transactions: sizes around and above MAX_TRANSACTION_SIZE, bursts to fill a slice
-                    // bursts that fill a slice with big transactions, or with thousands of tiny ones
-                    let tiny = rng.chance(1, 12);
-                    let burst = if tiny { 3000 } else if rng.chance(1, 6) { 80 } else { 1 };
-                    for _ in 0..burst {
-                        let sz = if tiny { rng.below(9) as usize } else { *rng.pick(&[0usize, 1, 511, 512, 513, 520, 1000, 1400, 1484]) };
+                4 => { // transactions: sizes around and above MAX_TRANSACTION_SIZE, sequences that fill a slice to the brim
+                    let send_tx = |sz: usize, rng: &mut Rng, sent: &mut [u64; 6]| {
                         let b = wincode::serialize(&Transaction(rng.bytes(sz))).expect("ser");
                         if b.len() <= 1500 { let _ = sock.send_to(&b, localhost_ip_sockaddr(tx_ports[j])); sent[4] += 1; }
+                    };
+                    match rng.below(12) {
+                        0 => { for _ in 0..3000 { let sz = rng.below(9) as usize; send_tx(sz, &mut rng, &mut sent); } } // thousands of tiny ones
+                        1..=4 => {
+                            // a slice filled with maximal transactions, then one that leaves a remaining budget anywhere around
+                            // MAX_TRANSACTION_SIZE (+ the 8-byte length prefix), then more maximal ones
+                            let full = rng.range(58, 63) as usize;
+                            for _ in 0..full { send_tx(512, &mut rng, &mut sent); }
+                            let odd = rng.range(440, 512) as usize;
+                            send_tx(odd, &mut rng, &mut sent);
+                            for _ in 0..3 { send_tx(512, &mut rng, &mut sent); }
+                        }
+                        5 | 6 => { for _ in 0..80 { let sz = *rng.pick(&[0usize, 1, 511, 512, 513, 520, 1000, 1400, 1484]); send_tx(sz, &mut rng, &mut sent); } }
+                        _ => { let sz = *rng.pick(&[0usize, 1, 511, 512, 513, 520, 1000, 1400, 1484]); send_tx(sz, &mut rng, &mut sent); }
                     }
                 }
                 _ => { // raw garbage to a random interface, sometimes larger than one MTU (up to a jumbo datagram)
